@@ -719,8 +719,12 @@ func (r *rangeFx) stmt(s goast.Stmt) {
 
 // sortedAfter reports whether obj (a slice appended to inside the loop) is handed to a sort
 // function after the loop, in the same top-level function.
-func (r *rangeFx) sortedAfter(k int) bool {
-	found := false
+func (r *rangeFx) sortedAfter(k int) bool { return r.sortCallAfter(k) != "" }
+
+// sortCallAfter returns the normalised text of that sort call (function and comparator: the KEY the
+// order-independence theorem is instantiated with), "" when there is none.
+func (r *rangeFx) sortCallAfter(k int) string {
+	found := ""
 	goast.Inspect(r.fn, func(n goast.Node) bool {
 		call, ok := n.(*goast.CallExpr)
 		if !ok || call.Pos() < r.loop.End() || len(call.Args) == 0 {
@@ -732,8 +736,13 @@ func (r *rangeFx) sortedAfter(k int) bool {
 		if !isSort {
 			return true
 		}
-		if sameObjectExpr(r.info, call.Args[0], r.appendedX[k]) {
-			found = true
+		if found == "" && sameObjectExpr(r.info, call.Args[0], r.appendedX[k]) {
+			var b bytes.Buffer
+			goprinter.Fprint(&b, r.fp.fset, call)
+			found = strings.Join(strings.Fields(b.String()), " ")
+			if len(found) > 400 {
+				found = found[:400] + "…"
+			}
 		}
 		return true
 	})
@@ -772,8 +781,9 @@ func (fp *factPkgs) mapRanges() []*factSite {
 				r.stmt(rs.Body)
 				allSorted := len(r.appended) > 0
 				for k := range r.appended {
-					if r.sortedAfter(k) {
+					if sc := r.sortCallAfter(k); sc != "" {
 						r.effects = append(r.effects, "sorted-after:"+fp.text(r.appendedX[k]))
+						r.effects = append(r.effects, "sort-call:"+sc)
 					} else {
 						allSorted = false
 					}
